@@ -26,8 +26,8 @@ pub fn def() -> CheckDef {
     CheckDef {
         id: "C01",
         level: "exploration",
-        runs_quick: 150_000,
-        runs_thorough: 3_000_000,
+        runs_quick: 600_000,
+        runs_thorough: 20_000_000,
         rule: "two simulated parties with independently drawn call schedules and backend-width policies, connected by a fault-free channel: encrypt on A through every public way of driving the mode (single/multi-block forms, driver scripts, padded one-shots with Pkcs7/Iso7816/NoPadding in place, b2b and _vec, AsyncStreamCipher one-shots, byte-stream wrappers and cores with arbitrary chunking, buffered CFB, cts one-shots), decrypt on B. distinct = distinct (mode, block size, cipher, both policies, both schedules' form/size sequences, closing operation); non-trivial = message of >= 1 byte",
         required_probes: &["async_partial_tail", "different_widths", "padded_bs255", "zero_length_message", "padded_vec", "cts", "stream_core_side", "buffered"],
         r#gen,
